@@ -39,6 +39,14 @@ theorem ite_append_self {α : Type} (c : Prop) [Decidable c] (st a : List α) :
     (if c then st ++ a else st) = st ++ (if c then a else []) := by
   split <;> simp
 
+theorem ite_nest {α : Type} (a b : Prop) [Decidable a] [Decidable b] (x y : α) :
+    (if a then (if b then x else y) else y) = if a ∧ b then x else y := by
+  by_cases ha : a <;> by_cases hb : b <;> simp [ha, hb]
+
+theorem ite_nest3 {α : Type} (a b c : Prop) [Decidable a] [Decidable b] [Decidable c] (x y : α) :
+    (if a ∧ b then (if c then x else y) else y) = if a ∧ b ∧ c then x else y := by
+  by_cases ha : a <;> by_cases hb : b <;> by_cases hc : c <;> simp [ha, hb, hc]
+
 theorem tabL_nonpos {α : Type} (n : Int) (h : n ≤ 0) (g : Int → List α) : tabL n g = [] := by
   simp [tabL, Int.toNat_of_nonpos h]
 
@@ -196,5 +204,468 @@ theorem final_tabL_arr (n : Int) (g : Int → List (Write K)) (arr : String) (id
   intro x hx hc
   obtain ⟨i, -, -, hxi⟩ := mem_tabL.mp hx
   exact h i x hxi hc.1
+
+/-! ## hand-written write lists of the reset kernels -/
+
+section specs
+variable [Scalar K]
+
+/-- `set` write -/
+abbrev wset (arr : String) (idx : List Int) (v : WVal K) : Write K := Write.mk arr idx v WKind.set
+/-- float zero -/
+abbrev fz : WVal K := WVal.f (Scalar.lit 0 0 : K)
+
+/-- iteration `i` of `for i in range(nq)` in `reset_nworld` -/
+def qposBody (nv w : Int) (q0 : Int → K) (i : Int) : List (Write K) :=
+  if i < nv then
+    [wset "qpos_out" [w, i] (WVal.f (q0 i)), wset "qvel_out" [w, i] fz, wset "qacc_warmstart_out" [w, i] fz,
+     wset "qfrc_applied_out" [w, i] fz, wset "qacc_out" [w, i] fz]
+  else [wset "qpos_out" [w, i] (WVal.f (q0 i))]
+
+/-- iteration `i` of `for i in range(na)` in `reset_nworld`: `act` and `act_dot` -/
+def actBody (w : Int) (i : Int) : List (Write K) :=
+  [wset "act_out" [w, i] fz, wset "act_dot_out" [w, i] fz]
+
+/-- iteration `i` of a loop `for i in range(n): arr[w, i] = v i` -/
+def cellBody (arr : String) (w : Int) (v : Int → WVal K) (i : Int) : List (Write K) := [wset arr [w, i] (v i)]
+
+/-- everything a `reset_nworld` task of a SELECTED world `w` writes, in program order -/
+def nworldWrites (nq nv nu na nbody ntree neq nuserdata nsensordata : Int) (qpos0 : Int → Int → K)
+    (eq_active0 : Int → Bool) (qpos0_shape0 w : Int) : List (Write K) :=
+  (if w = 0 then [wset "solver_niter_out" [w] (WVal.i 0), wset "nacon_out" [0] (WVal.i 0)]
+   else [wset "solver_niter_out" [w] (WVal.i 0)])
+  ++ [wset "ne_out" [w] (WVal.i 0), wset "nf_out" [w] (WVal.i 0), wset "nl_out" [w] (WVal.i 0),
+      wset "nefc_out" [w] (WVal.i 0), wset "time_out" [w] fz,
+      wset "energy_out" [w] (WVal.v [(Scalar.lit 0 0 : K), (Scalar.lit 0 0 : K)]),
+      wset "ntree_awake_out" [w] (WVal.i ntree), wset "nbody_awake_out" [w] (WVal.i nbody),
+      wset "nv_awake_out" [w] (WVal.i nv)]
+  ++ tabL nq (qposBody nv w (qpos0 (Int.tmod w qpos0_shape0)))
+  ++ tabL nu (cellBody "ctrl_out" w (fun _ => fz))
+  ++ tabL na (actBody w)
+  ++ tabL neq (cellBody "eq_active_out" w (fun i => WVal.b (eq_active0 i)))
+  ++ tabL nsensordata (cellBody "sensordata_out" w (fun _ => fz))
+  ++ tabL nuserdata (cellBody "userdata_out" w (fun _ => fz))
+  ++ [wset "overflow_out" [w] (WVal.i 0)]
+
+/-- the generated `reset_nworld` kernel returns `[]` for an unselected world and `nworldWrites` otherwise -/
+theorem reset_nworld_eq (nq nv nu na nbody ntree neq nuserdata nsensordata : Int) (qpos0 : Int → Int → K)
+    (eq_active0 : Int → Bool) (nworld_in : Int) (reset_in : Int → Bool)
+    (solver_niter_out ne_out nf_out nl_out nefc_out ntree_awake_out nbody_awake_out nv_awake_out : Int → Int)
+    (time_out : Int → K) (energy_out : Int → V2 K)
+    (qpos_out qvel_out act_out qacc_warmstart_out ctrl_out qfrc_applied_out : Int → Int → K)
+    (eq_active_out : Int → Int → Bool) (qacc_out act_dot_out userdata_out sensordata_out : Int → Int → K)
+    (nacon_out overflow_out : Int → Int) (st : Bool) (qpos0_shape0 w : Int) :
+    Gen.Io.reset_data__reset_nworld nq nv nu na nbody ntree neq nuserdata nsensordata qpos0 eq_active0 nworld_in
+        reset_in solver_niter_out ne_out nf_out nl_out nefc_out ntree_awake_out nbody_awake_out nv_awake_out
+        time_out energy_out qpos_out qvel_out act_out qacc_warmstart_out ctrl_out qfrc_applied_out eq_active_out
+        qacc_out act_dot_out userdata_out sensordata_out nacon_out overflow_out st qpos0_shape0 w
+      = if st = true ∧ reset_in w = false then []
+        else nworldWrites nq nv nu na nbody ntree neq nuserdata nsensordata qpos0 eq_active0 qpos0_shape0 w := by
+  unfold Gen.Io.reset_data__reset_nworld
+  simp only [List.append_assoc, List.cons_append, List.nil_append, decide_eq_true_eq, ite_append_left,
+    forRange_append]
+  cases st <;> cases reset_in w <;> simp [nworldWrites, V2.toList] <;> rfl
+
+/-- everything a `reset_contact` task clears in contact slot `c`, in program order -/
+def contactWrites (nefcaddress sh_flex sh_elem sh_vert c : Int) : List (Write K) :=
+  [wset "contact_dist_out" [c] fz,
+   wset "contact_pos_out" [c] (WVal.v [(Scalar.lit 0 0 : K), (Scalar.lit 0 0 : K), (Scalar.lit 0 0 : K)]),
+   wset "contact_frame_out" [c] (WVal.v [(Scalar.lit 0 0 : K), (Scalar.lit 0 0 : K), (Scalar.lit 0 0 : K),
+     (Scalar.lit 0 0 : K), (Scalar.lit 0 0 : K), (Scalar.lit 0 0 : K), (Scalar.lit 0 0 : K), (Scalar.lit 0 0 : K),
+     (Scalar.lit 0 0 : K)]),
+   wset "contact_includemargin_out" [c] fz,
+   wset "contact_friction_out" [c] (WVal.v [(Scalar.lit 0 0 : K), (Scalar.lit 0 0 : K), (Scalar.lit 0 0 : K),
+     (Scalar.lit 0 0 : K), (Scalar.lit 0 0 : K)]),
+   wset "contact_solref_out" [c] (WVal.v [(Scalar.lit 0 0 : K), (Scalar.lit 0 0 : K)]),
+   wset "contact_solreffriction_out" [c] (WVal.v [(Scalar.lit 0 0 : K), (Scalar.lit 0 0 : K)]),
+   wset "contact_solimp_out" [c] (WVal.v [(Scalar.lit 0 0 : K), (Scalar.lit 0 0 : K), (Scalar.lit 0 0 : K),
+     (Scalar.lit 0 0 : K), (Scalar.lit 0 0 : K)]),
+   wset "contact_dim_out" [c] (WVal.i 0),
+   wset "contact_geom_out" [c] (WVal.iv [0, 0])]
+  ++ (if sh_flex > 0 then [wset "contact_flex_out" [c] (WVal.iv [0, 0])] else [])
+  ++ (if sh_elem > 0 then [wset "contact_elem_out" [c] (WVal.iv [0, 0])] else [])
+  ++ (if sh_vert > 0 then [wset "contact_vert_out" [c] (WVal.iv [0, 0])] else [])
+  ++ tabL nefcaddress (cellBody "contact_efc_address_out" c (fun _ => WVal.i (-1)))
+  ++ [wset "contact_worldid_out" [c] (WVal.i 0), wset "contact_type_out" [c] (WVal.i 0),
+      wset "contact_geomcollisionid_out" [c] (WVal.i 0), wset "contact_adhesion_out" [c] fz]
+
+/-- the generated `reset_contact` kernel: slot `c` is cleared iff it is active (`c < nacon`) and NOT
+    (mask in use ∧ its world tag is ≥ 0 ∧ that world is unselected) -/
+theorem reset_contact_eq (nacon_in : Int → Int) (reset_in : Int → Bool) (nefcaddress : Int)
+    (contact_dist_out : Int → K) (contact_pos_out : Int → V3 K) (contact_frame_out : Int → M33 K)
+    (contact_includemargin_out : Int → K) (contact_friction_out : Int → V5 K)
+    (contact_solref_out contact_solreffriction_out : Int → V2 K) (contact_solimp_out : Int → V5 K)
+    (contact_dim_out : Int → Int) (contact_geom_out contact_flex_out contact_elem_out contact_vert_out : Int → I2)
+    (contact_efc_address_out : Int → Int → Int)
+    (contact_worldid_out contact_type_out contact_geomcollisionid_out : Int → Int) (contact_adhesion_out : Int → K)
+    (st : Bool) (sh_flex sh_elem sh_vert c : Int) :
+    Gen.Io.reset_data__reset_contact nacon_in reset_in nefcaddress contact_dist_out contact_pos_out
+        contact_frame_out contact_includemargin_out contact_friction_out contact_solref_out
+        contact_solreffriction_out contact_solimp_out contact_dim_out contact_geom_out contact_flex_out
+        contact_elem_out contact_vert_out contact_efc_address_out contact_worldid_out contact_type_out
+        contact_geomcollisionid_out contact_adhesion_out st sh_flex sh_elem sh_vert c
+      = if c ≥ nacon_in 0 then []
+        else if st = true ∧ 0 ≤ contact_worldid_out c ∧ reset_in (contact_worldid_out c) = false then []
+        else contactWrites nefcaddress sh_flex sh_elem sh_vert c := by
+  unfold Gen.Io.reset_data__reset_contact
+  simp only [List.append_assoc, List.cons_append, List.nil_append, decide_eq_true_eq, ite_append_left,
+    ite_append_self, forRange_append, Write.lookupI, List.foldl_nil]
+  by_cases h1 : c ≥ nacon_in 0
+  · simp only [if_pos h1]
+  · simp only [if_neg h1]
+    cases st <;> by_cases h2 : 0 ≤ contact_worldid_out c <;> cases h3 : reset_in (contact_worldid_out c) <;>
+      simp [contactWrites, V2.toList, V3.toList, V5.toList, M33.toList, I2.toList, V3.fill, h2] <;> split <;> rfl
+
+/-- the generated `reset_M` kernel -/
+theorem reset_M_eq (reset_in : Int → Bool) (M_out : Int → Int → K) (st : Bool) (w e : Int) :
+    Gen.Io.reset_data__reset_M reset_in M_out st w e
+      = if st = true ∧ reset_in w = false then [] else [wset "M_out" [w, e] fz] := by
+  unfold Gen.Io.reset_data__reset_M
+  cases st <;> cases h : reset_in w <;> simp [h]
+
+/-- what a `reset_mocap` task writes for a selected world `w` and body `b` -/
+def mocapWrites (body_mocapid : Int → Int) (body_pos : Int → Int → V3 K) (body_quat : Int → Int → Q K)
+    (sh_pos sh_quat w b : Int) : List (Write K) :=
+  if body_mocapid b ≥ 0 then
+    [wset "mocap_pos_out" [w, body_mocapid b] (WVal.v (V3.toList (body_pos (Int.tmod w sh_pos) b))),
+     wset "mocap_quat_out" [w, body_mocapid b] (WVal.v (Q.toList (body_quat (Int.tmod w sh_quat) b)))]
+  else []
+
+theorem reset_mocap_eq (body_mocapid : Int → Int) (body_pos : Int → Int → V3 K) (body_quat : Int → Int → Q K)
+    (reset_in : Int → Bool) (mocap_pos_out : Int → Int → V3 K) (mocap_quat_out : Int → Int → Q K) (st : Bool)
+    (sh_pos sh_quat w b : Int) :
+    Gen.Io.reset_data__reset_mocap body_mocapid body_pos body_quat reset_in mocap_pos_out mocap_quat_out st
+        sh_pos sh_quat w b
+      = if st = true ∧ reset_in w = false then []
+        else mocapWrites body_mocapid body_pos body_quat sh_pos sh_quat w b := by
+  unfold Gen.Io.reset_data__reset_mocap
+  simp only [List.cons_append, List.nil_append, decide_eq_true_eq]
+  cases st <;> cases reset_in w <;> simp [mocapWrites]
+
+/-- what a `reset_sleep` task writes for a selected world `w` and element `e` -/
+def sleepWrites (nv nbody ntree : Int) (body_mocapid body_treeid : Int → Int) (mj_minawake w e : Int) :
+    List (Write K) :=
+  (if e < ntree then [wset "tree_asleep_out" [w, e] (WVal.i (-(1 + mj_minawake))),
+                      wset "tree_awake_out" [w, e] (WVal.i 1)] else [])
+  ++ (if e < nbody then
+        [wset "body_awake_out" [w, e]
+           (WVal.i (if body_treeid e < 0 then (if body_mocapid e ≥ 0 then 1 else -1) else 1)),
+         wset "body_awake_ind_out" [w, e] (WVal.i e)] else [])
+  ++ (if e < nv then [wset "dof_awake_ind_out" [w, e] (WVal.i e)] else [])
+
+theorem reset_sleep_eq (nv nbody ntree : Int) (body_mocapid body_treeid : Int → Int) (mj_minawake : Int)
+    (reset_in : Int → Bool)
+    (tree_asleep_out tree_awake_out body_awake_out body_awake_ind_out dof_awake_ind_out : Int → Int → Int)
+    (st : Bool) (w e : Int) :
+    Gen.Io.reset_data__reset_sleep (K := K) nv nbody ntree body_mocapid body_treeid mj_minawake reset_in
+        tree_asleep_out tree_awake_out body_awake_out body_awake_ind_out dof_awake_ind_out st w e
+      = if st = true ∧ reset_in w = false then []
+        else sleepWrites nv nbody ntree body_mocapid body_treeid mj_minawake w e := by
+  unfold Gen.Io.reset_data__reset_sleep
+  simp only [List.cons_append, List.nil_append, decide_eq_true_eq]
+  cases st <;> cases reset_in w <;> simp [sleepWrites] <;>
+    (split <;> split <;> split <;> try split) <;> simp_all
+
+end specs
+
+section keyframe
+variable [Scalar K]
+
+/-- iteration `i` of `for i in range(nmocap)` in `reset_keyframe_data` -/
+def kmocapBody (w : Int) (mpos : Int → V3 K) (mquat : Int → Q K) (i : Int) : List (Write K) :=
+  [wset "mocap_pos_out" [w, i] (WVal.v (V3.toList (mpos i))),
+   wset "mocap_quat_out" [w, i] (WVal.v (Q.toList (mquat i)))]
+
+/-- everything a `reset_keyframe_data` task writes for a world `w` with (valid) key `key` -/
+def keyframeWrites (nq nv nu na nmocap : Int) (key_time : Int → K) (key_qpos key_qvel key_act : Int → Int → K)
+    (key_mpos : Int → Int → V3 K) (key_mquat : Int → Int → Q K) (key_ctrl : Int → Int → K) (key w : Int) :
+    List (Write K) :=
+  [wset "time_out" [w] (WVal.f (key_time key))]
+  ++ tabL nq (cellBody "qpos_out" w (fun i => WVal.f (key_qpos key i)))
+  ++ tabL nv (cellBody "qvel_out" w (fun i => WVal.f (key_qvel key i)))
+  ++ tabL na (cellBody "act_out" w (fun i => WVal.f (key_act key i)))
+  ++ tabL nmocap (kmocapBody w (key_mpos key) (key_mquat key))
+  ++ tabL nu (cellBody "ctrl_out" w (fun i => WVal.f (key_ctrl key i)))
+
+theorem reset_keyframe_data_eq (nq nv nu na nmocap : Int) (key_time : Int → K)
+    (key_qpos key_qvel key_act : Int → Int → K) (key_mpos : Int → Int → V3 K) (key_mquat : Int → Int → Q K)
+    (key_ctrl : Int → Int → K) (key_in : Int → Int) (reset_in : Int → Bool) (time_out : Int → K)
+    (qpos_out qvel_out act_out ctrl_out : Int → Int → K) (mocap_pos_out : Int → Int → V3 K)
+    (mocap_quat_out : Int → Int → Q K) (w : Int) :
+    Gen.Io.reset_data_keyframe__reset_keyframe_data nq nv nu na nmocap key_time key_qpos key_qvel key_act
+        key_mpos key_mquat key_ctrl key_in reset_in time_out qpos_out qvel_out act_out ctrl_out mocap_pos_out
+        mocap_quat_out w
+      = if reset_in w = false then []
+        else keyframeWrites nq nv nu na nmocap key_time key_qpos key_qvel key_act key_mpos key_mquat key_ctrl
+          (key_in w) w := by
+  unfold Gen.Io.reset_data_keyframe__reset_keyframe_data
+  simp only [List.append_assoc, List.cons_append, List.nil_append, forRange_append]
+  cases reset_in w <;> simp [keyframeWrites] <;> rfl
+
+theorem valid_key_mask_eq (nkey : Int) (key_in : Int → Int) (mask_out : Int → Bool) (w : Int) :
+    Gen.Io.reset_data_keyframe__valid_key_mask (K := K) nkey key_in mask_out w
+      = [wset "mask_out" [w] (WVal.b (decide (0 ≤ key_in w) && decide (key_in w < nkey)))] := by
+  unfold Gen.Io.reset_data_keyframe__valid_key_mask
+  simp
+
+end keyframe
+
+/-! ## `final` of the loop bodies -/
+
+section finals
+variable [Scalar K]
+
+omit [Scalar K] in
+theorem final_ite (c : Prop) [Decidable c] (a b : List (Write K)) (arr : String) (idx : List Int) :
+    final (if c then a else b) arr idx = if c then final a arr idx else final b arr idx := by
+  split <;> rfl
+
+omit [Scalar K] in
+theorem cellBody_col (a : String) (w : Int) (v : Int → WVal K) : ∀ i, ∀ x ∈ cellBody a w v i, x.idx = [w, i] := by
+  intro i x hx
+  simp only [cellBody, List.mem_singleton] at hx
+  subst hx; rfl
+
+theorem qposBody_col (nv w : Int) (q0 : Int → K) : ∀ i, ∀ x ∈ qposBody nv w q0 i, x.idx = [w, i] := by
+  intro i x hx
+  unfold qposBody at hx
+  split at hx <;> simp only [List.mem_cons, List.mem_nil_iff, or_false] at hx
+  · rcases hx with rfl | rfl | rfl | rfl | rfl <;> rfl
+  · subst hx; rfl
+
+theorem actBody_col (w : Int) : ∀ i, ∀ x ∈ actBody (K := K) w i, x.idx = [w, i] := by
+  intro i x hx
+  simp only [actBody, List.mem_cons, List.mem_nil_iff, or_false] at hx
+  rcases hx with rfl | rfl <;> rfl
+
+omit [Scalar K] in
+theorem kmocapBody_col (w : Int) (mpos : Int → V3 K) (mquat : Int → Q K) :
+    ∀ i, ∀ x ∈ kmocapBody w mpos mquat i, x.idx = [w, i] := by
+  intro i x hx
+  simp only [kmocapBody, List.mem_cons, List.mem_nil_iff, or_false] at hx
+  rcases hx with rfl | rfl <;> rfl
+
+omit [Scalar K] in
+theorem final_tabL_cell (n w : Int) (a : String) (v : Int → WVal K) (arr : String) (j : Int) :
+    final (tabL n (cellBody a w v)) arr [w, j]
+      = if a = arr ∧ 0 ≤ j ∧ j < n then some (v j, WKind.set) else none := by
+  rw [final_tabL_col n w _ (cellBody_col a w v)]
+  by_cases ha : a = arr
+  · by_cases hj : 0 ≤ j ∧ j < n
+    · simp [cellBody, final_cons, hits, ha, hj]
+    · rw [if_neg hj, if_neg (fun h => hj h.2)]
+  · have : final (cellBody a w v j) arr [w, j] = none := by
+      simp [cellBody, final_cons, hits, ha]
+    simp [this, ha]
+
+omit [Scalar K] in
+theorem final_tabL_cell_one (n w : Int) (a : String) (v : Int → WVal K) (arr : String) (x : Int) :
+    final (tabL n (cellBody a w v)) arr [x] = none :=
+  final_tabL_row n w _ (cellBody_col a w v) arr [x] (by simp)
+
+theorem final_tabL_qpos (n nv w : Int) (q0 : Int → K) (arr : String) (j : Int) :
+    final (tabL n (qposBody nv w q0)) arr [w, j]
+      = if 0 ≤ j ∧ j < n then final (qposBody nv w q0 j) arr [w, j] else none :=
+  final_tabL_col n w _ (qposBody_col nv w q0) arr j
+
+theorem final_tabL_qpos_one (n nv w : Int) (q0 : Int → K) (arr : String) (x : Int) :
+    final (tabL n (qposBody nv w q0)) arr [x] = none :=
+  final_tabL_row n w _ (qposBody_col nv w q0) arr [x] (by simp)
+
+theorem final_tabL_act (n w : Int) (arr : String) (j : Int) :
+    final (tabL n (actBody (K := K) w)) arr [w, j]
+      = if 0 ≤ j ∧ j < n then final (actBody (K := K) w j) arr [w, j] else none :=
+  final_tabL_col n w _ (actBody_col w) arr j
+
+theorem final_tabL_act_one (n w : Int) (arr : String) (x : Int) :
+    final (tabL n (actBody (K := K) w)) arr [x] = none :=
+  final_tabL_row n w _ (actBody_col w) arr [x] (by simp)
+
+omit [Scalar K] in
+theorem final_tabL_kmocap (n w : Int) (mpos : Int → V3 K) (mquat : Int → Q K) (arr : String) (j : Int) :
+    final (tabL n (kmocapBody w mpos mquat)) arr [w, j]
+      = if 0 ≤ j ∧ j < n then final (kmocapBody w mpos mquat j) arr [w, j] else none :=
+  final_tabL_col n w _ (kmocapBody_col w mpos mquat) arr j
+
+omit [Scalar K] in
+theorem final_tabL_kmocap_one (n w : Int) (mpos : Int → V3 K) (mquat : Int → Q K) (arr : String) (x : Int) :
+    final (tabL n (kmocapBody w mpos mquat)) arr [x] = none :=
+  final_tabL_row n w _ (kmocapBody_col w mpos mquat) arr [x] (by simp)
+
+/-- simp set that evaluates `final` on the hand-written write lists -/
+macro "final_simp" : tactic =>
+  `(tactic| simp [final_append, final_cons, final_ite, hits, final_tabL_cell, final_tabL_cell_one,
+      final_tabL_qpos, final_tabL_qpos_one, final_tabL_act, final_tabL_act_one, final_tabL_kmocap,
+      final_tabL_kmocap_one, qposBody, actBody, kmocapBody])
+
+/-! ## array names -/
+
+/-- all writes of `ws` go to arrays named in `names` -/
+def arrsIn (names : List String) (ws : List (Write K)) : Prop := ∀ x ∈ ws, x.arr ∈ names
+
+omit [Scalar K] in
+theorem arrsIn_nil (names : List String) : arrsIn names ([] : List (Write K)) := by
+  intro x hx; cases hx
+
+omit [Scalar K] in
+theorem arrsIn_append {names : List String} {a b : List (Write K)} (ha : arrsIn names a) (hb : arrsIn names b) :
+    arrsIn names (a ++ b) := by
+  intro x hx
+  rcases List.mem_append.mp hx with h | h
+  · exact ha x h
+  · exact hb x h
+
+omit [Scalar K] in
+theorem arrsIn_cons {names : List String} {x : Write K} {xs : List (Write K)} (hx : x.arr ∈ names)
+    (hxs : arrsIn names xs) : arrsIn names (x :: xs) := by
+  intro y hy
+  rcases List.mem_cons.mp hy with rfl | h
+  · exact hx
+  · exact hxs y h
+
+omit [Scalar K] in
+theorem arrsIn_ite {names : List String} (c : Prop) [Decidable c] {a b : List (Write K)} (ha : arrsIn names a)
+    (hb : arrsIn names b) : arrsIn names (if c then a else b) := by
+  split <;> assumption
+
+omit [Scalar K] in
+theorem arrsIn_tabL {names : List String} (n : Int) {g : Int → List (Write K)} (h : ∀ i, arrsIn names (g i)) :
+    arrsIn names (tabL n g) :=
+  forall_mem_tabL (fun i _ _ => h i)
+
+end finals
+
+/-! ## the sub-list of writes that go to one array -/
+
+section toArr
+
+/-- the writes of `ws` that go to array `arr`, in order -/
+def toArr (arr : String) (ws : List (Write K)) : List (Write K) := ws.filter (fun x => x.arr == arr)
+
+@[simp] theorem toArr_nil (arr : String) : toArr arr ([] : List (Write K)) = [] := rfl
+
+theorem toArr_append (arr : String) (a b : List (Write K)) : toArr arr (a ++ b) = toArr arr a ++ toArr arr b := by
+  simp [toArr]
+
+theorem toArr_cons (arr : String) (x : Write K) (xs : List (Write K)) :
+    toArr arr (x :: xs) = if x.arr = arr then x :: toArr arr xs else toArr arr xs := by
+  by_cases h : x.arr = arr <;> simp [toArr, h]
+
+theorem toArr_ite (arr : String) (c : Prop) [Decidable c] (a b : List (Write K)) :
+    toArr arr (if c then a else b) = if c then toArr arr a else toArr arr b := by
+  split <;> rfl
+
+theorem toArr_tabL (arr : String) (n : Int) (g : Int → List (Write K)) :
+    toArr arr (tabL n g) = tabL n (fun i => toArr arr (g i)) := by
+  simp [toArr, tabL, List.filter_flatMap]
+
+theorem tabL_nil {α : Type} (n : Int) : tabL n (fun _ => ([] : List α)) = [] := by
+  simp [tabL]
+
+theorem mem_toArr {arr : String} {ws : List (Write K)} {x : Write K} :
+    x ∈ toArr arr ws ↔ x ∈ ws ∧ x.arr = arr := by
+  simp [toArr]
+
+/-- no write to `arr` ⇒ no cell of `arr` is written -/
+theorem final_none_of_toArr_nil (ws : List (Write K)) (arr : String) (h : toArr arr ws = []) (idx : List Int) :
+    final ws arr idx = none := by
+  rw [final_eq_none_iff]
+  intro x hx hc
+  have : x ∈ toArr arr ws := mem_toArr.mpr ⟨hx, hc.1⟩
+  rw [h] at this; cases this
+
+end toArr
+
+/-! ## the kernel calculus' own cell semantics (`Write.lookupI/F`) on untouched cells -/
+
+theorem lookupI_of_no_write (ws : List (Write K)) (arr : String) (idx : List Int) (d : Int)
+    (h : ∀ x ∈ ws, ¬ (x.arr = arr ∧ x.idx = idx)) : Write.lookupI ws arr idx d = d := by
+  unfold Write.lookupI
+  induction ws generalizing d with
+  | nil => rfl
+  | cons x xs ih =>
+    have hx : ¬ (x.arr = arr ∧ x.idx = idx) := h x List.mem_cons_self
+    have : (x.arr == arr && x.idx == idx) = false := by
+      cases h1 : (x.arr == arr && x.idx == idx)
+      · rfl
+      · exfalso; apply hx; simpa using h1
+    simp only [List.foldl_cons, this]
+    exact ih d (fun y hy => h y (List.mem_cons_of_mem _ hy))
+
+theorem lookupF_of_no_write [Scalar K] (ws : List (Write K)) (arr : String) (idx : List Int) (d : K)
+    (h : ∀ x ∈ ws, ¬ (x.arr = arr ∧ x.idx = idx)) : Write.lookupF ws arr idx d = d := by
+  unfold Write.lookupF
+  induction ws generalizing d with
+  | nil => rfl
+  | cons x xs ih =>
+    have hx : ¬ (x.arr = arr ∧ x.idx = idx) := h x List.mem_cons_self
+    have : (x.arr == arr && x.idx == idx) = false := by
+      cases h1 : (x.arr == arr && x.idx == idx)
+      · rfl
+      · exfalso; apply hx; simpa using h1
+    simp only [List.foldl_cons, this]
+    exact ih d (fun y hy => h y (List.mem_cons_of_mem _ hy))
+
+/-- simp set that evaluates `toArr` on the hand-written write lists -/
+macro "toArr_simp" : tactic =>
+  `(tactic| simp [toArr_append, toArr_cons, toArr_ite, toArr_tabL, tabL_nil, qposBody, actBody, kmocapBody,
+      cellBody])
+
+/-- if the last write to an int cell is `set v`, the cell holds `v` afterwards (kernel-calculus semantics) -/
+theorem lookupI_of_final_set (ws : List (Write K)) (arr : String) (idx : List Int) (v d : Int)
+    (h : final ws arr idx = some (WVal.i v, WKind.set)) : Write.lookupI ws arr idx d = v := by
+  induction ws generalizing d with
+  | nil => simp at h
+  | cons x xs ih =>
+    rw [final_cons] at h
+    have hstep : Write.lookupI (x :: xs) arr idx d
+        = Write.lookupI xs arr idx (if x.arr == arr && x.idx == idx then
+            (match x.kind, x.val with
+             | .set, .i y => y
+             | .aadd, .i y => d + y
+             | .alloc, .i y => d + y
+             | .asub, .i y => d - y
+             | .amax, .i y => max d y
+             | .amin, .i y => min d y
+             | .aor, .i y => Mjw.ior d y
+             | _, _ => d) else d) := rfl
+    rw [hstep]
+    cases hf : final xs arr idx with
+    | some p =>
+      rw [hf] at h
+      exact ih _ (by rw [hf]; exact h)
+    | none =>
+      rw [hf, Option.none_or] at h
+      by_cases hh : hits arr idx x = true
+      · rw [if_pos hh] at h
+        have hv : x.val = WVal.i v := by injection h with h; exact (Prod.mk.inj h).1
+        have hk : x.kind = WKind.set := by injection h with h; exact (Prod.mk.inj h).2
+        have hh' : (x.arr == arr && x.idx == idx) = true := hh
+        rw [hh', if_pos rfl, hv, hk]
+        exact lookupI_of_no_write xs arr idx v ((final_eq_none_iff xs arr idx).mp hf)
+      · rw [if_neg hh] at h; cases h
+
+theorem lookupI_of_final_none (ws : List (Write K)) (arr : String) (idx : List Int) (d : Int)
+    (h : final ws arr idx = none) : Write.lookupI ws arr idx d = d :=
+  lookupI_of_no_write ws arr idx d ((final_eq_none_iff ws arr idx).mp h)
+
+theorem lookupF_of_final_none [Scalar K] (ws : List (Write K)) (arr : String) (idx : List Int) (d : K)
+    (h : final ws arr idx = none) : Write.lookupF ws arr idx d = d :=
+  lookupF_of_no_write ws arr idx d ((final_eq_none_iff ws arr idx).mp h)
+
+/-- writes confined to `names` never touch an array outside `names` -/
+theorem final_none_of_arrsIn {names : List String} {ws : List (Write K)} (h : arrsIn names ws) (arr : String)
+    (harr : arr ∉ names) (idx : List Int) : final ws arr idx = none := by
+  rw [final_eq_none_iff]
+  intro x hx hc
+  exact harr (hc.1 ▸ h x hx)
+
+/-- "selected" (`reset=None` or mask bit set) excludes the early-return condition -/
+theorem sel_not (reset_in : Int → Bool) (st : Bool) (w : Int) (hsel : st = false ∨ reset_in w = true) :
+    ¬ (st = true ∧ reset_in w = false) := by
+  rintro ⟨h1, h2⟩
+  rcases hsel with h | h
+  · rw [h1] at h; cases h
+  · rw [h2] at h; cases h
 
 end Mjw.Lemmas.C13
